@@ -212,7 +212,13 @@ def _vectors(ncoef, seed, tag, limit):
     vals = []
     fl = fillers(seed, tag, 4 * ncoef, q)
     # every support pattern with fillers, plus unit patterns with 1 and -1
-    for mask in range(1 << ncoef):
+    # support patterns ordered so that a prefix of any length touches every coefficient position and contains both sparse and
+    # dense operands: masks sorted by popcount, taken alternately from the sparse and the dense end
+    asc = sorted(range(1 << ncoef), key=lambda m: (bin(m).count("1"), m))
+    order = []
+    for lo, hi in zip(asc, reversed(asc)):
+        order += [lo, hi]
+    for mask in dedup(order):
         if len(vals) >= limit:
             break
         vals.append(tuple(fl[i] if (mask >> i) & 1 else 0 for i in range(ncoef)))
